@@ -143,15 +143,16 @@ func runCheck(prop, tier, root string, seed int) int {
 	if tier == "thorough" {
 		cfg.Timeout = 120 * time.Second
 	}
-	Discharge(units, cfg)
-
 	kf := loadKnown(filepath.Join(verifRoot, "known_findings.json"))
 	known := map[string]KnownFinding{}
+	cfg.Known = map[string]bool{}
 	for _, f := range kf.Findings {
 		if f.Property == prop {
 			known[f.Obligation] = f
+			cfg.Known[f.Obligation] = true
 		}
 	}
+	Discharge(units, cfg)
 	engineErr := 0
 	specViol := 0
 	os.RemoveAll(filepath.Join(verifRoot, "work", "replay", prop))
